@@ -346,6 +346,27 @@ func describe(st State) string {
 			}
 		}
 	}
+	stopped := map[int]bool{}
+	for _, p := range st.Stopped {
+		stopped[p] = true
+	}
+	for _, k := range st.Keys {
+		key, p := k[0].(string), k[1].(int)
+		if p < 0 || p >= len(st.Infos) {
+			continue
+		}
+		inf := st.Infos[p]
+		listed := inf.Cluster == key
+		for _, a := range inf.Aliases {
+			listed = listed || a == key
+		}
+		if !listed {
+			msgs = append(msgs, fmt.Sprintf("%q resolves to cluster %q, whose current server names do not contain it", rig.UnHex(key), rig.UnHex(inf.Cluster)))
+		}
+		if stopped[p] {
+			msgs = append(msgs, fmt.Sprintf("%q resolves to cluster %q, which is stopped", rig.UnHex(key), rig.UnHex(inf.Cluster)))
+		}
+	}
 	sort.Strings(msgs)
 	uniq := msgs[:0]
 	for i, m := range msgs {
